@@ -36,7 +36,7 @@ P = {
               "through a symmetric TdfEntry codec, tail source/destination/shift use the same expressions, the comment is carried by an `is not None` "
               "test on an entry captured before removal, and every BlockType member dispatches to the class of that type. Byte equality under concrete "
               "histories is not decided."),
-    "C05": _p("static: pattern rule on _segments derivation, layout-term agreement of table and data loops, definite-initialisation (NaN prefill) dataflow on decoder terms", "3/C05",
+    "C05": _p("static: pattern rule on _segments derivation, layout-term agreement of table and data loops, definite-initialisation (NaN prefill) dataflow on decoder terms, term-by-term writer/reader comparison of the gap records on every path (early exits forked)", "3/C05",
               "Decides that runs are derived by the canonical clump_unmasked(masked_invalid(x)) composition in all four gap-coded classes, that segment "
               "table and data iterate the same runs with rows (start, stop-start) and data rows [start, stop), that every np.empty decode buffer gets a "
               "whole-buffer NaN store before its first partial store and before escaping, and that decoder stores land on the run's own frames. The numpy "
@@ -49,7 +49,7 @@ P = {
               "additionally validates the reference table itself against the BTS capture with a stdlib struct parser (oracle sanity; no repository code "
               "is executed). Golden digests of decoded values are not decided.",
               "The reference table /verif/sa/reference_layout.py."),
-    "C07": _p("static: effect/reject classification + CFG reachability (no path effect ->+ refusal), taint (def-use) of request-derived data, callee summaries, path summaries (no refusing path has stored into the object)", "3/C07",
+    "C07": _p("static: effect/reject classification + CFG reachability (no path effect ->+ refusal), taint (def-use) of request-derived data, callee summaries, path summaries (no refusing path has stored into the object), syntactic session-boundary rule (__enter__/__exit__ write nothing)", "3/C07",
               "Decides that on every path of every mutator everything that can refuse the request (escaping raises, evaluation on caller-supplied "
               "objects, serialisation of request-derived data, calls to refusing mutators) precedes the first change to the file or the in-memory table, and "
               "that late-refusing serialisers never get the live handle. This is the property for every rejection cause and file state, because the "
@@ -64,7 +64,7 @@ P = {
               "Decides that the offset of the slot appended by remove_block is end-of-data of the post-shift table, that the tail move is seek/read/seek/"
               "write/truncate/flush in that order with the same three expressions as the table shift, that re-pointing and shift loops cover the whole "
               "tail unconditionally, and that Tdf.new points all slots at the end of the table. The arithmetic identity over concrete histories is not decided."),
-    "C10": _p("static: must-pass-through dataflow (dirty entry -> entry write), cursor-position analysis on the CFG (slot index = list index), flush-on-exit, per-path decode in get_block", "3/C10",
+    "C10": _p("static: must-pass-through dataflow (dirty entry -> entry write) over every method of Tdf, cursor-position analysis on the CFG (slot index = list index), flush-on-exit, session-boundary rule, per-path decode in get_block", "3/C10",
               "Decides that every table change in memory is paired on every normal path with the whole-entry write of that entry at slot 64+288*i with i "
               "its list index, that every path from a file effect to a normal return passes flush(), that the table is re-parsed from the header count on "
               "every context entry, that the size comes from the file system and get_block decodes from the handle at the entry's offset."),
@@ -94,11 +94,11 @@ P = {
               "self before them, only the four owners touch the containers, list assignment saves before reset, goes through the guarded add, catches "
               "Exception, restores and re-raises, and decoders build tracks with the block's own frame count. Mutation through the list returned by the "
               "getter is outside the property's quantifier."),
-    "C17": _p("static: path summaries of new/copy (existence test before every file-creating call on the same path value, no destructive call); header layout conformance; signature-before-decode ordering with a whole-value comparison", "3/C17",
+    "C17": _p("static: path summaries of new/copy (existence test before every file-creating call on the same path value, no destructive call); header layout conformance; signature-before-decode ordering with a whole-value comparison; no shared class-level state in Tdf/TdfEntry; no construct on the open path that discards an exception", "3/C17",
               "Decides that every file-creating call in new/copy is dominated by `if p.exists(): raise FileExistsError` on the path built from the argument, "
               "that the empty container has the reference layout (version 1, 14 zero-size slots at 4096, nothing after), that __init__ refuses missing paths "
               "and __enter__ compares the signature before decoding any field, and the copy direction. Races with other processes are not decided."),
-    "C18": _p("static: sibling cross-check of the four accessors of four classes (same container, three-way dispatch, literal label predicate, purity)", "3/C18",
+    "C18": _p("static: sibling cross-check of the four accessors of four classes (same container, three-way dispatch, literal label predicate, purity incl. the item class's __eq__)", "3/C18",
               "Decides the coherence relations structurally for every content (duplicates, empty labels, case variants - the predicate is a literal ==): all "
               "four accessors read one container, int -> list position, str -> first match else KeyError, other -> TypeError, membership uses the same "
               "predicate, and none of the 16 methods stores or mutates."),
